@@ -385,6 +385,13 @@ def tiFlatList (parent : PyVal) : List TIVar → List Obj
   | v :: vs => v.flat parent ++ tiFlatList parent vs
 end
 
+def floatBody (r : Str) : Str := Str.lowerAscii (match r with | '-' :: t => t | t => t)
+
+/-- `int(v)` of a float that is not finite: `nan` ValueError, `inf` OverflowError (`Err.other`) -/
+def nonFinite : PyVal → Option Err
+  | .float r => if floatBody r == c!"nan" then some .valueError else if floatBody r == c!"inf" then some .other else none
+  | _ => none
+
 namespace TreeInfoM
 variable (m : TreeInfoM)
 
@@ -406,6 +413,13 @@ def parts : List Part :=
     ++ (if m.hasStage2 then [⟨"treeinfo.Stage2", m.stage2⟩] else [])
     ++ (if m.hasMedia then [⟨"treeinfo.Media", m.media⟩] else [])
 
+/-- `General.serialize`: `str(int(build_timestamp))` — a float that is not finite cannot be converted (`nan`: ValueError; `inf`:
+OverflowError, a class `Err` does not have: `Err.other`) — then `variants[0]` on an empty tree (IndexError) -/
+def generalOk : Except Err Unit :=
+  match nonFinite (m.tree.get c!"build_timestamp") with
+  | some e => .error e
+  | none => if m.variants.isEmpty then .error .indexError else .ok ()
+
 def variantSteps (o : Obj) : List Step :=
   vstep Flag.tiVariant "treeinfo.Variant" o
     ++ [Step.check (if isStr (o.get c!"uid") then .ok () else .error .typeError)]      -- `"variant-" + self.uid`
@@ -422,7 +436,7 @@ def steps : List Step :=
     ++ (if m.hasStage2 then vstep Flag.tiStage2 "treeinfo.Stage2" m.stage2 else [])
     ++ (if m.hasMedia then vstep Flag.tiMedia "treeinfo.Media" m.media
           ++ [Step.check (pyIntOk (m.media.get c!"discnum")), Step.check (pyIntOk (m.media.get c!"totaldiscs"))] else [])
-    ++ [Step.check (if m.variants.isEmpty then .error .indexError else .ok ())]          -- `variants[0]` in General.serialize
+    ++ [Step.check m.generalOk]
 
 def dumps : Except Err Unit := runSteps m.steps
 
